@@ -127,6 +127,14 @@ fn replay_one(b: &Value, npool: usize, stats: &mut Stats) -> Vec<Value> {
     for k in 1..=npool {
         let _ = eval(&mut s, &format!("(define o{} '())", k));
     }
+    // object identity as the language shows it: y is the object x or a tail of the list x
+    let _ = eval(&mut s, "(define (zz-tail? x y) (if (eq? x y) (if (pair? y) #t (if (vector? y) (> (vector-length y) 0) (if (string? y) (> (string-length y) 0) #f))) (if (pair? x) (zz-tail? (cdr x) y) #f)))");
+    let share_text = {
+        let rows: Vec<String> = (1..=npool)
+            .map(|i| format!("(list {})", (1..=npool).map(|j| format!("(zz-tail? o{} o{})", i, j)).collect::<Vec<_>>().join(" ")))
+            .collect();
+        format!("(list {})", rows.join(" "))
+    };
     let ops = b["ops"].as_array().cloned().unwrap_or_default();
     let mut done_texts = vec![];
     for (i, o) in ops.iter().enumerate() {
@@ -203,6 +211,26 @@ fn replay_one(b: &Value, npool: usize, stats: &mut Stats) -> Vec<Value> {
                         return out;
                     }
                 }
+            }
+        }
+        // which pool objects are the same object / share a tail
+        if let Some(sh) = o["share"].as_array() {
+            stats.state_checks += 1;
+            let got = match eval(&mut s, &share_text) {
+                Outcome::Ok(c) => obs_datum(&c),
+                _ => json!(null),
+            };
+            let got_m: Vec<Vec<bool>> = got["v"]
+                .as_array()
+                .map(|rows| rows.iter().map(|r| r["v"].as_array().map(|x| x.iter().map(|b| b["v"].as_bool().unwrap_or(false)).collect()).unwrap_or_default()).collect())
+                .unwrap_or_default();
+            let exp_m: Vec<Vec<bool>> = sh.iter().map(|r| r.as_array().map(|x| x.iter().map(|b| b.as_bool().unwrap_or(false)).collect()).unwrap_or_default()).collect();
+            if got_m != exp_m {
+                out.push(json!({"step": i + 1, "op": op, "text": text,
+                                "what": "object identity: which pool objects are the same object or share a tail differs after the step",
+                                "exp": exp_m, "got": got_m, "history": done_texts}));
+                stats.mismatches += 1;
+                return out;
             }
         }
     }
